@@ -191,6 +191,22 @@ pub fn gen_c11(rng: &mut Rng, thorough: bool) -> Vec<Tagged> {
         spec.weights = Some(vec![LW::Block(bw)]);
         out.push((format!("block-many-repetitions-{:?}", acc), Case::Net(spec, NetCmd::Forward(rand_input(rng, Sh::Flat(n), 0)))));
     }
+    // many repetitions of a body that does NOT converge (bias-free rotations by an angle incommensurable with
+    // pi, linear activation): L = 128, 129, 130, 200, 257 repetitions of one layer, 65 / 70 of two layers, 43 / 44
+    // of three; every repetition counts (one repetition more or less turns the output by the angle)
+    for (k, &(nl, loops)) in [(1usize, 129usize), (1, 130), (1, 128), (1, 200), (1, 257), (2, 65), (2, 70), (3, 43), (3, 44), (2, 64)].iter().enumerate() {
+        if !(thorough || k % 2 == 0 || k == 1) {
+            continue;
+        }
+        let mut spec = NetSpec::new(Sh::Flat(2).to_shape());
+        let ls: Vec<Simple> = (0..nl).map(|_| Simple::Dense { out: 2, act: Act::Linear, bias: false, dropout: None }).collect();
+        let bw: Vec<W> = (0..nl).map(|j| { let th = 0.37f32 + 0.21 * j as f32; W::Dense(t2(2, 2, &[th.cos(), -th.sin(), th.sin(), th.cos()]), None) }).collect();
+        let outskips = k % 3 == 1;
+        spec.layers.push(LayerSpec::Block { layers: ls, loops, inskips: false, outskips, acc: if outskips { Acc::Add } else { Acc::Mean } });
+        spec.weights = Some(vec![LW::Block(bw)]);
+        out.push((format!("block-rotation-L{}x{}", loops, nl), Case::Net(spec.clone(), NetCmd::Forward(t1(vec![1.0, 0.25])))));
+        out.push((format!("block-rotation-L{}x{}-predict", loops, nl), Case::Net(spec, NetCmd::Predict(t1(vec![-0.5, 0.75])))));
+    }
     // blocks on flat tensors with more than 2^10 elements, skips with every accumulation
     for acc in ALL_ACCS {
         let nbig = 1100usize;
@@ -277,6 +293,43 @@ pub fn gen_c10(rng: &mut Rng, thorough: bool) -> Vec<Tagged> {
         let data = rand_data(rng, 2, Sh::Flat(n), Sh::Flat(n), Obj::MSE);
         out.push(("tied-many-repetitions".into(), Case::Net(spec.clone(), NetCmd::Learn { data, val: None, batch: 1, epochs: 2 })));
         out.push(("tied-many-repetitions-params".into(), Case::Net(spec, NetCmd::Shapes)));
+    }
+    // blocks with MANY parameters (loops x scalars beyond 2^13 and 2^16): wide dense layers with bias, and
+    // convolutions with many filters and channels; weights AND biases of every copy stay tied
+    for (k, &(width, loops)) in [(64usize, 2usize), (32, 8), (91, 1), (130, 4)].iter().enumerate() {
+        if !(thorough || k < 3) {
+            continue;
+        }
+        let mut spec = NetSpec::new(Sh::Flat(width).to_shape());
+        let ls = vec![Simple::Dense { out: width, act: Act::Tanh, bias: true, dropout: None }];
+        let bw = vec![rand_w(rng, &ls[0], Sh::Flat(width), 2)];
+        spec.layers.push(LayerSpec::Block { layers: ls, loops, inskips: false, outskips: false, acc: [Acc::Mean, Acc::Add][k % 2] });
+        let d = Simple::Dense { out: 2, act: Act::Linear, bias: true, dropout: None };
+        spec.weights = Some(vec![LW::Block(bw), LW::One(rand_w(rng, &d, Sh::Flat(width), 2))]);
+        spec.layers.push(LayerSpec::One(d));
+        spec.opt = rand_opt(rng, k % 5);
+        spec.obj = Obj::MSE;
+        let data = rand_data(rng, 2, Sh::Flat(width), Sh::Flat(2), Obj::MSE);
+        out.push(("tied-many-parameters-dense".into(), Case::Net(spec.clone(), NetCmd::Learn { data, val: None, batch: 1, epochs: 2 })));
+        out.push(("tied-many-parameters-dense-params".into(), Case::Net(spec, NetCmd::Shapes)));
+    }
+    for (k, &(c, loops)) in [(16usize, 4usize), (24, 2)].iter().enumerate() {
+        if !(thorough || k == 0) {
+            continue;
+        }
+        let input = Sh::Sp(c, 3, 3);
+        let ls = vec![Simple::Conv { filters: c, kernel: (3, 3), stride: (1, 1), padding: (1, 1), dilation: (1, 1), act: Act::Tanh, dropout: None }];
+        let bw = match block_weights(rng, &ls, input, 2) { Some(b) => b, None => continue };
+        let mut spec = NetSpec::new(input.to_shape());
+        spec.layers.push(LayerSpec::Block { layers: ls, loops, inskips: false, outskips: false, acc: Acc::Mean });
+        let d = Simple::Dense { out: 2, act: Act::Linear, bias: true, dropout: None };
+        spec.weights = Some(vec![bw, LW::One(rand_w(rng, &d, Sh::Flat(input.numel()), 2))]);
+        spec.layers.push(LayerSpec::One(d));
+        spec.opt = rand_opt(rng, 1 + k);
+        spec.obj = Obj::MSE;
+        let data = rand_data(rng, 2, input, Sh::Flat(2), Obj::MSE);
+        out.push(("tied-many-parameters-conv".into(), Case::Net(spec.clone(), NetCmd::Learn { data, val: None, batch: 1, epochs: 2 })));
+        out.push(("tied-many-parameters-conv-params".into(), Case::Net(spec, NetCmd::Shapes)));
     }
     // blocks with a max-pool layer: the parameter-free couple is skipped, the others stay tied
     for r in 0..(if thorough { 36 } else { 12 }) {
@@ -642,6 +695,31 @@ pub fn gen_c17(rng: &mut Rng, thorough: bool) -> Vec<Tagged> {
             out.push((format!("loop-{:?}-k{}-overflowing-body", acc, k), Case::Net(spec, NetCmd::Forward(t1(vec![1.0; n])))));
         }
     }
+    // loop bodies whose successive outputs differ by LESS THAN 1e-5 in absolute terms without being equal: tiny
+    // signals (1e-6 doubled per iteration) and slow drift (gain 1 + 2^-16 at ordinary magnitudes, many
+    // iterations, then a large downstream gain); every accumulation, spatial and flat
+    for (ai, acc) in ALL_ACCS.iter().enumerate() {
+        for variant in 0..3 {
+            let (gain, k, x0, head): (f32, usize, f32, f32) = match variant { 0 => (2.0, 3, 1e-6, 1e6), 1 => (1.0 + 1.0 / 65536.0, 40, 0.5, 1e5), _ => (0.5, 4, 3e-6, 1e6) };
+            let spatial = (ai + variant) % 2 == 1;
+            let input = if spatial { Sh::Sp(1, 1, 2) } else { Sh::Flat(2) };
+            let mut spec = NetSpec::new(input.to_shape());
+            let (body, bwt): (Simple, W) = if spatial {
+                (Simple::Conv { filters: 1, kernel: (1, 1), stride: (1, 1), padding: (0, 0), dilation: (1, 1), act: Act::Linear, dropout: None }, W::Kernels(vec![t3(1, 1, 1, &[gain])]))
+            } else {
+                (Simple::Dense { out: 2, act: Act::Linear, bias: false, dropout: None }, W::Dense(t2(2, 2, &[gain, 0.0, 0.0, gain]), None))
+            };
+            let headl = Simple::Dense { out: 2, act: Act::Linear, bias: false, dropout: None };
+            spec.layers.push(LayerSpec::One(body));
+            spec.layers.push(LayerSpec::One(headl));
+            spec.weights = Some(vec![LW::One(bwt), LW::One(W::Dense(t2(2, 2, &[head, 0.0, 0.0, head]), None))]);
+            spec.loops = vec![(0, 0, k, false)];
+            spec.loopacc = *acc;
+            let x = tensor_of_shape(&input.to_shape(), &[x0, -x0 * 0.5]);
+            out.push((format!("loop-{:?}-tiny-steps-v{}", acc, variant), Case::Net(spec.clone(), NetCmd::Forward(x.clone()))));
+            out.push((format!("loop-{:?}-tiny-steps-v{}-predict", acc, variant), Case::Net(spec, NetCmd::Predict(x))));
+        }
+    }
     // every entry point on loop networks (not only forward): predict, predict_batch, and direct writes of the
     // public map `loopbacks` between predictions (emptied, other iteration count and input-skip flag, restored,
     // filled in on a network built without loops); one loop, two loops, loops next to skips and blocks
@@ -894,6 +972,36 @@ pub fn gen_c04(rng: &mut Rng, thorough: bool) -> Vec<Tagged> {
         let data = rand_data(rng, 3, input, outsh, Obj::MSE);
         out.push(("learn-block-skip-loop-combination".into(), Case::Net(spec, NetCmd::Learn { data, val: None, batch: 2, epochs: 2 })));
     }
+    // training WITH validation data over several epochs on networks whose dropout sits inside a feedback block
+    // without any dense layer (convolution / deconvolution / max-pool only), and on plain convolutional networks
+    // with dropout: every epoch after a validation pass still trains in training mode (dropout masks applied)
+    for r in 0..(if thorough { 24 } else { 8 }) {
+        let mut ob = GenOpts::default();
+        ob.wkind = 2;
+        ob.acts = vec![Act::Linear, Act::Tanh, Act::Sigmoid];
+        if let Some((mut spec, input, outsh)) = block_net(rng, &ob, true, 1 + r % 3, r % 4 == 1, r % 4 == 2, [Acc::Mean, Acc::Add][r % 2], true) {
+            let mut has = false;
+            if let Some(LayerSpec::Block { layers, .. }) = spec.layers.first_mut() {
+                for l in layers.iter_mut() {
+                    match l {
+                        Simple::Conv { dropout, .. } | Simple::Deconv { dropout, .. } => {
+                            *dropout = Some([0.5f32, 0.25, 0.75][r % 3]);
+                            has = true;
+                        }
+                        _ => (),
+                    }
+                }
+            }
+            if !has {
+                continue;
+            }
+            spec.opt = rand_opt(rng, r % 5);
+            spec.obj = Obj::MSE;
+            let data = rand_data(rng, 3, input, outsh, Obj::MSE);
+            let val = rand_data(rng, 1 + r % 3, input, outsh, Obj::MSE);
+            out.push(("learn-with-validation-dropout-in-dense-free-block-E3".into(), Case::Net(spec, NetCmd::Learn { data, val: Some((val, 10)), batch: 2, epochs: 3 })));
+        }
+    }
     // B > N by any amount: "full batch" requested as a batch size far beyond the data set (N + 1, 2^20, 10^13,
     // isize::MAX / 4 + 1, usize::MAX): the N samples are the single partial group of every epoch
     for (k, &batch) in [usize::MAX, (isize::MAX as usize) / 4 + 1, 10_000_000_000_000usize, 1 << 20, 1 << 33, usize::MAX - 1].iter().enumerate() {
@@ -1061,6 +1169,25 @@ pub fn gen_c13(rng: &mut Rng, thorough: bool) -> Vec<Tagged> {
         let th = 1 + (r % 4) as i32;
         out.push((format!("early-second-call-T{}", th), Case::Net(spec, NetCmd::LearnTwiceVal { data, val, th, batch: 1, epochs1: 1 + (r % 5) as i32, epochs2: 2 + (r % 7) as i32 })));
     }
+    // validation losses of EXTREME MAGNITUDE (2^-24, 1e-10, 1e-30, subnormal, 1e20, 3e37) that rise, fall or stay
+    // by tiny / huge absolute amounts: the rule compares the losses themselves, whatever their scale
+    // (1 -> 1 linear network under MAE, weight 1 + k/8 after k epochs, validation input s: loss s * (1 + k/8))
+    for (k, &sc) in [5.9604645e-8f32, 1e-10, 1e-30, 1e-42, 1e20, 3e37, 1.0].iter().enumerate() {
+        for (j, &lr) in [-0.125f32, 0.125, 1e-30].iter().enumerate() {
+            if !(thorough || (k + j) % 2 == 0 || k == 0) {
+                continue;
+            }
+            let mut spec = NetSpec::new(Sh::Flat(1).to_shape());
+            spec.layers.push(LayerSpec::One(Simple::Dense { out: 1, act: Act::Linear, bias: false, dropout: None }));
+            spec.weights = Some(vec![LW::One(W::Dense(t2(1, 1, &[1.0]), None))]);
+            spec.opt = Opt::SGD { lr, decay: None };
+            spec.obj = Obj::MAE;
+            let data = vec![(t1(vec![1.0]), t1(vec![0.0]))];
+            let val = vec![(t1(vec![sc]), t1(vec![0.0]))];
+            let th = 2 + ((k + j) % 2) as i32;
+            out.push((format!("early-loss-scale-{:e}", sc), Case::Net(spec, NetCmd::Learn { data, val: Some((val, th)), batch: 1, epochs: 12 })));
+        }
+    }
     // extreme tolerances: i32::MAX ("never stop"), its neighbours, zero and negative windows, against rising
     // and falling validation losses
     for (k, &th) in [i32::MAX, i32::MAX - 1, 1 << 30, 65536, 0, -1, i32::MIN, i32::MIN + 1].iter().enumerate() {
@@ -1220,6 +1347,59 @@ pub fn gen_c09(rng: &mut Rng, thorough: bool) -> Vec<Tagged> {
 }
 
 /// networks whose dropout layers sit inside a feedback block
+/// layer k of netgen::special_relation_layers (convolutions and deconvolutions only) WITH dropout 0.5, at top
+/// level or - when it preserves the shape, every other time - as a two-loop feedback block; a dense layer follows
+pub fn dropout_special_net(rng: &mut Rng, k: usize) -> Option<(NetSpec, Sh, Sh)> {
+    let all = special_relation_layers();
+    let (inp, l) = all[k % all.len()].clone();
+    let l = match l {
+        Simple::Conv { filters, kernel, stride, padding, dilation, act, .. } => Simple::Conv { filters, kernel, stride, padding, dilation, act, dropout: Some(0.5) },
+        Simple::Deconv { filters, kernel, stride, padding, act, .. } => Simple::Deconv { filters, kernel, stride, padding, act, dropout: Some(0.5) },
+        _ => return None,
+    };
+    let mid = out_shape(&l, inp)?;
+    let d = Simple::Dense { out: 2, act: Act::Linear, bias: true, dropout: None };
+    let mut spec = NetSpec::new(inp.to_shape());
+    if mid == inp && k % 2 == 0 {
+        let bw = block_weights(rng, &vec![l.clone()], inp, 2)?;
+        spec.layers.push(LayerSpec::Block { layers: vec![l], loops: 2, inskips: false, outskips: false, acc: Acc::Mean });
+        spec.weights = Some(vec![bw, LW::One(rand_w(rng, &d, Sh::Flat(mid.numel()), 2))]);
+    } else {
+        spec.weights = Some(vec![LW::One(rand_w(rng, &l, inp, 2)), LW::One(rand_w(rng, &d, Sh::Flat(mid.numel()), 2))]);
+        spec.layers.push(LayerSpec::One(l));
+    }
+    spec.layers.push(LayerSpec::One(d));
+    spec.opt = Opt::SGD { lr: 0.05, decay: None };
+    spec.obj = Obj::MSE;
+    Some((spec, inp, Sh::Flat(2)))
+}
+
+/// a spatial block in which a max-pool layer (no training flag) stands first, last or in the middle and the
+/// dropout layer elsewhere, followed by a dense layer with two outputs
+pub fn pool_dropout_block_net(rng: &mut Rng, r: usize) -> Option<(NetSpec, Sh, Sh)> {
+    let c = 1 + r % 2;
+    let input = Sh::Sp(c, 3, 3 + r % 2);
+    let rate = Some([0.5f32, 0.3, 0.8][r % 3]);
+    let conv_same = |dropout| Simple::Conv { filters: c, kernel: (3, 3), stride: (1, 1), padding: (1, 1), dilation: (1, 1), act: Act::Tanh, dropout };
+    let ident_pool = Simple::Maxpool { kernel: (1, 1), stride: (1, 1) };
+    let ls: Vec<Simple> = match r % 4 {
+        0 => vec![ident_pool.clone(), conv_same(rate)],
+        1 => vec![Simple::Maxpool { kernel: (2, 2), stride: (1, 1) }, Simple::Deconv { filters: c, kernel: (2, 2), stride: (1, 1), padding: (0, 0), act: Act::Sigmoid, dropout: rate }],
+        2 => vec![conv_same(rate), ident_pool.clone()],
+        _ => vec![ident_pool.clone(), conv_same(None), ident_pool.clone(), conv_same(rate)],
+    };
+    let bw = block_weights(rng, &ls, input, 2)?;
+    let mut spec = NetSpec::new(input.to_shape());
+    spec.layers.push(LayerSpec::Block { layers: ls, loops: 1 + (r / 4) % 3, inskips: false, outskips: false, acc: [Acc::Mean, Acc::Add][r % 2] });
+    let d = Simple::Dense { out: 2, act: Act::Linear, bias: true, dropout: None };
+    let ws = vec![bw, LW::One(rand_w(rng, &d, Sh::Flat(input.numel()), 2))];
+    spec.layers.push(LayerSpec::One(d));
+    spec.weights = Some(ws);
+    spec.opt = Opt::SGD { lr: 0.05, decay: None };
+    spec.obj = Obj::MSE;
+    Some((spec, input, Sh::Flat(2)))
+}
+
 pub fn gen_c09_blocks(rng: &mut Rng, thorough: bool) -> Vec<Tagged> {
     let mut out: Vec<Tagged> = vec![];
     let mut o = GenOpts::default();
@@ -1242,6 +1422,34 @@ pub fn gen_c09_blocks(rng: &mut Rng, thorough: bool) -> Vec<Tagged> {
             out.push((format!("{}-validate-in-training", tag), Case::Net(spec.clone(), NetCmd::Validate { data: val.clone(), tol: 0.1, pre_training: true })));
             out.push((format!("{}-predict", tag), Case::Net(spec, NetCmd::Predict(data[0].0.clone()))));
         }
+    }
+    // DROPOUT on layers whose parameters stand in a special relation (netgen::special_relation_layers: pointwise,
+    // patch-wise, overhanging ... - the configurations with tempting fast paths), top level and inside a block:
+    // evaluation never applies the mask, training does
+    for k in 0..special_relation_layers().len() {
+        let (spec, inp, _) = match dropout_special_net(rng, k) { Some(x) => x, None => continue };
+        let data = rand_data(rng, 2, inp, Sh::Flat(2), Obj::MSE);
+        out.push(("dropout-special-relation-predict".into(), Case::Net(spec.clone(), NetCmd::Predict(data[0].0.clone()))));
+        out.push(("dropout-special-relation-validate-in-training".into(), Case::Net(spec.clone(), NetCmd::Validate { data: data.clone(), tol: 0.1, pre_training: true })));
+        if thorough || k % 3 == 0 {
+            out.push(("dropout-special-relation-learn".into(), Case::Net(spec, NetCmd::Learn { data: data.clone(), val: Some((data, 100)), batch: 1, epochs: 2 })));
+        }
+    }
+    // blocks in which a layer WITHOUT a training flag (max-pool) stands first, last or in the middle, with the
+    // dropout layer elsewhere in the block: the mode of the block is the mode of ALL its flagged layers
+    for r in 0..(if thorough { 24 } else { 8 }) {
+        let (spec, input, _) = match pool_dropout_block_net(rng, r) { Some(x) => x, None => continue };
+        let data = rand_data(rng, 2, input, Sh::Flat(2), Obj::MSE);
+        let val = rand_data(rng, 2, input, Sh::Flat(2), Obj::MSE);
+        let tag = format!("dropout-block-with-pool-layout{}", r % 4);
+        out.push((format!("{}-learn", tag), Case::Net(spec.clone(), NetCmd::Learn { data: data.clone(), val: Some((val.clone(), 100)), batch: 1, epochs: 2 })));
+        out.push((format!("{}-learn-then-predict-validate", tag), Case::Net(spec.clone(), NetCmd::Script(vec![
+            NetCmd::Learn { data: data.clone(), val: None, batch: 2, epochs: 1 },
+            NetCmd::Predict(data[0].0.clone()),
+            NetCmd::Validate { data: val.clone(), tol: 0.1, pre_training: false },
+            NetCmd::Predict(data[1].0.clone()),
+        ]))));
+        out.push((format!("{}-validate-in-training", tag), Case::Net(spec, NetCmd::Validate { data: val, tol: 0.1, pre_training: true })));
     }
     out
 }
@@ -1266,6 +1474,38 @@ pub fn gen_c03_net(rng: &mut Rng, thorough: bool) -> Vec<Tagged> {
             let nd = rng.range(2, 4);
             let data = rand_data(rng, nd, input, outsh, Obj::MSE);
             out.push((format!("net-slots-{}-{}", spec.opt.kind(), kinds.join("+")), Case::Net(spec, NetCmd::Learn { data, val: None, batch: 1, epochs: 2 })));
+        }
+    }
+    // steps whose gradient is EXACTLY zero for a whole slot (an all-zero input sample gives an all-zero kernel /
+    // weight gradient) between ordinary steps: under every rule but plain SGD the documented step still moves
+    // the parameters (momentum, moments, decay) and still updates the running statistics
+    for kind in 0..3 {
+        for oi in 0..6 {
+            let (input, first): (Sh, Simple) = match kind {
+                0 => (Sh::Sp(1, 3, 3), Simple::Conv { filters: 2, kernel: (2, 2), stride: (1, 1), padding: (0, 0), dilation: (1, 1), act: Act::Tanh, dropout: None }),
+                1 => (Sh::Sp(2, 2, 2), Simple::Deconv { filters: 2, kernel: (2, 2), stride: (1, 1), padding: (0, 0), act: Act::Linear, dropout: None }),
+                _ => (Sh::Flat(3), Simple::Dense { out: 2, act: Act::Tanh, bias: false, dropout: None }),
+            };
+            let mid = out_shape(&first, input).unwrap();
+            let head = Simple::Dense { out: 2, act: Act::Linear, bias: true, dropout: None };
+            let mut spec = NetSpec::new(input.to_shape());
+            spec.weights = Some(vec![LW::One(rand_w(rng, &first, input, 2)), LW::One(rand_w(rng, &head, Sh::Flat(mid.numel()), 2))]);
+            spec.layers.push(LayerSpec::One(first));
+            spec.layers.push(LayerSpec::One(head));
+            spec.opt = match oi {
+                0 => Opt::SGD { lr: 0.1, decay: Some(0.1) },
+                1 => Opt::SGDM { lr: 0.05, momentum: 0.9, dampening: 0.0, decay: None },
+                2 => Opt::Adam { lr: 0.01, b1: 0.9, b2: 0.999, eps: 1e-8, decay: None },
+                3 => Opt::AdamW { lr: 0.01, b1: 0.9, b2: 0.999, eps: 1e-8, decay: 0.05 },
+                4 => Opt::RMS { lr: 0.01, alpha: 0.9, eps: 1e-8, decay: None, momentum: Some(0.5), centered: false },
+                _ => Opt::RMS { lr: 0.01, alpha: 0.9, eps: 1e-8, decay: Some(0.1), momentum: None, centered: true },
+            };
+            spec.obj = Obj::MSE;
+            let mut data = rand_data(rng, 4, input, Sh::Flat(2), Obj::MSE);
+            let zero = tensor_of_shape(&input.to_shape(), &vec![0.0; input.numel()]);
+            data[1].0 = zero.clone();
+            data[2].0 = zero;
+            out.push((format!("net-slots-zero-gradient-steps-{}-{}", ["conv", "deconv", "dense"][kind], spec.opt.kind()), Case::Net(spec, NetCmd::Learn { data, val: None, batch: 1, epochs: 2 })));
         }
     }
     // the unrolled copies of a feedback block each own their state slot (stateful optimizers, 2..4 loops,
@@ -1449,6 +1689,51 @@ pub fn gen_c12(rng: &mut Rng, thorough: bool) -> Vec<Tagged> {
             out.push(("validate-degenerate-tolerance-70".into(), Case::Net(spec2.clone(), NetCmd::Validate { data: data2.clone(), tol, pre_training: false })));
         }
     }
+    // the activation of the OUTPUT layer replaced after the layer was added (`set_activation`), across the
+    // soft-max boundary in both directions, and the activation of a hidden layer replaced: the accuracy rule
+    // (arg-max agreement for a soft-max output, the tolerance band otherwise) follows the activation the
+    // output layer has NOW; loss and predictions follow the new activations
+    for r in 0..(if thorough { 24 } else { 8 }) {
+        let k = 3usize;
+        let mut spec = NetSpec::new(Sh::Flat(2).to_shape());
+        let first_softmax = r % 2 == 0;
+        let d1 = Simple::Dense { out: k, act: Act::Tanh, bias: true, dropout: None };
+        let d2 = Simple::Dense { out: k, act: if first_softmax { Act::Softmax } else { [Act::Linear, Act::Sigmoid, Act::Tanh][(r / 2) % 3] }, bias: true, dropout: None };
+        spec.weights = Some(vec![LW::One(rand_w(rng, &d1, Sh::Flat(2), 2)), LW::One(rand_w(rng, &d2, Sh::Flat(k), 2))]);
+        spec.layers.push(LayerSpec::One(d1));
+        spec.layers.push(LayerSpec::One(d2));
+        spec.obj = if r % 4 < 2 { Obj::MSE } else { Obj::CE };
+        // one-hot targets: the two rules disagree on most samples
+        let data: Vec<(Tensor, Tensor)> = (0..(if r % 3 == 0 { 70 } else { 7 })).map(|i| {
+            let mut t = vec![0.0f32; k];
+            t[(i * 7 + r) % k] = 1.0;
+            (rand_input(rng, Sh::Flat(2), 2), t1(t))
+        }).collect();
+        let other = if first_softmax { [Act::Linear, Act::Sigmoid, Act::ReLU][(r / 2) % 3] } else { Act::Softmax };
+        let tol = [0.6f32, 0.3, 1.0][r % 3];
+        let ops = vec![
+            NetCmd::Validate { data: data.clone(), tol, pre_training: false },
+            NetCmd::SetActivation(1, other),
+            NetCmd::Validate { data: data.clone(), tol, pre_training: false },
+            NetCmd::Predict(data[0].0.clone()),
+            NetCmd::SetActivation(0, Act::Sigmoid),
+            NetCmd::Validate { data: data.clone(), tol, pre_training: false },
+            NetCmd::SetActivation(1, if first_softmax { Act::Softmax } else { Act::Linear }),
+            NetCmd::Validate { data: data.clone(), tol, pre_training: false },
+        ];
+        out.push((format!("validate-after-set-activation-{}", if first_softmax { "from-softmax" } else { "to-softmax" }), Case::Net(spec, NetCmd::Script(ops))));
+    }
+    // set_activation is refused on max-pool layers and on indices out of bounds; the network is unchanged
+    {
+        let mut spec = NetSpec::new(Sh::Sp(1, 2, 2).to_shape());
+        let d = Simple::Dense { out: 2, act: Act::Linear, bias: false, dropout: None };
+        spec.weights = Some(vec![LW::One(W::None), LW::One(rand_w(rng, &d, Sh::Flat(4), 2))]);
+        spec.layers.push(LayerSpec::One(Simple::Maxpool { kernel: (1, 1), stride: (1, 1) }));
+        spec.layers.push(LayerSpec::One(d));
+        for idx in [0usize, 2, 7] {
+            out.push(("set-activation-refused".into(), Case::Net(spec.clone(), NetCmd::Script(vec![NetCmd::SetActivation(idx, Act::Tanh)]))));
+        }
+    }
     // a network not ending in a dense layer is refused by validate
     let mut spec = NetSpec::new(Sh::Sp(1, 3, 3).to_shape());
     spec.layers.push(LayerSpec::One(Simple::Maxpool { kernel: (1, 1), stride: (1, 1) }));
@@ -1498,6 +1783,14 @@ pub fn gen_c05(rng: &mut Rng, thorough: bool) -> Vec<Tagged> {
         let xs: Vec<Tensor> = (0..70).map(|_| rand_input(rng, input, 2)).collect();
         out.push(("par-learn-conv-chain-equal-padded-size".into(), Case::Net(sp.clone(), NetCmd::Learn { data, val: None, batch: 3, epochs: 2 })));
         out.push(("par-predict-batch-conv-chain-equal-padded-size".into(), Case::Net(sp, NetCmd::PredictBatch(xs))));
+    }
+    // very wide dense layers (4096 inputs, 2100 outputs, 2049 inputs)
+    for variant in 0..(if thorough { 3 } else { 2 }) {
+        let (spec, input, outsh) = wide_dense_net(rng, variant);
+        let data = rand_data(rng, 5, input, outsh, Obj::MSE);
+        let xs: Vec<Tensor> = (0..6).map(|_| rand_input(rng, input, 2)).collect();
+        out.push(("par-learn-wide-dense".into(), Case::Net(spec.clone(), NetCmd::Learn { data: data.clone(), val: Some((data, 100)), batch: 2, epochs: 2 })));
+        out.push(("par-predict-batch-wide-dense".into(), Case::Net(spec, NetCmd::PredictBatch(xs))));
     }
     // samples with a NaN / infinite loss in the middle of an evaluation set of more than one parallel chunk
     for (k, (n, bad)) in [(70usize, vec![(33usize, f32::NAN)]), (150, vec![(70, f32::NAN), (20, f32::INFINITY)]), (200, vec![(199, f32::NAN)]), (130, vec![(0, f32::NAN)]), (65, vec![(64, f32::NEG_INFINITY)])].into_iter().enumerate() {
@@ -1549,6 +1842,21 @@ pub fn nan_in_the_middle(n: usize, bad: &[(usize, f32)]) -> (NetSpec, Vec<(Tenso
         }
     }
     (spec, data)
+}
+
+/// networks with a very wide dense layer (2^11 .. 2^12 inputs or outputs): the per-sample matrix-vector
+/// products are long enough for a nested parallel reduction to be tempting
+pub fn wide_dense_net(rng: &mut Rng, variant: usize) -> (NetSpec, Sh, Sh) {
+    let (i, h, o_) = match variant % 3 { 0 => (4096usize, 4usize, 2usize), 1 => (4, 2100, 2), _ => (2049, 3, 2) };
+    let mut spec = NetSpec::new(Sh::Flat(i).to_shape());
+    let d1 = Simple::Dense { out: h, act: Act::Tanh, bias: true, dropout: None };
+    let d2 = Simple::Dense { out: o_, act: Act::Linear, bias: true, dropout: None };
+    spec.weights = Some(vec![LW::One(rand_w(rng, &d1, Sh::Flat(i), 2)), LW::One(rand_w(rng, &d2, Sh::Flat(h), 2))]);
+    spec.layers.push(LayerSpec::One(d1));
+    spec.layers.push(LayerSpec::One(d2));
+    spec.opt = Opt::SGD { lr: 0.001, decay: None };
+    spec.obj = Obj::MSE;
+    (spec, Sh::Flat(i), Sh::Flat(o_))
 }
 
 /// runs one job in pools of every size, repeated, with and without schedule perturbation: all results equal
@@ -1657,6 +1965,22 @@ pub fn fals_c05(rng: &mut Rng, thorough: bool) -> crate::fals::Fals {
         let big_pools: Vec<usize> = if thorough { vec![1, 2, 4, 8, 16] } else { vec![1, 4, 8] };
         let cmd = NetCmd::Learn { data, val: None, batch: 64, epochs: 2 };
         across_pools(&mut f, rng, &big_pools, 2, &spec, &cmd, "schedule/learn/large-batch-x-parameters", "learn", "256->256->8 dense network, batch 64");
+    }
+    // very wide dense layers: a nested parallel reduction inside ONE sample's forward / backward pass would
+    // associate the float sums differently in pools of different sizes
+    for variant in 0..3 {
+        let (spec, input, outsh) = wide_dense_net(rng, variant);
+        let data = rand_data(rng, 6, input, outsh, Obj::MSE);
+        let val = rand_data(rng, 70, input, outsh, Obj::MSE);
+        let cmds = vec![
+            ("learn", NetCmd::Learn { data: data.clone(), val: Some((data.clone(), 100)), batch: 3, epochs: 2 }),
+            ("validate", NetCmd::Validate { data: val.clone(), tol: 0.1, pre_training: false }),
+            ("predict_batch", NetCmd::PredictBatch(val.iter().map(|d| d.0.clone()).collect())),
+        ];
+        let wp: Vec<usize> = if thorough { vec![1, 2, 3, 4, 8, 16, 33] } else { vec![1, 2, 4, 8] };
+        for (name, cmd) in cmds {
+            across_pools(&mut f, rng, &wp, reps.max(3), &spec, &cmd, &format!("schedule/{}/wide-dense", name), name, &format!("wide dense network (variant {})", variant));
+        }
     }
     // samples with a NaN / infinite loss in the middle of the evaluation set, non-uniform accuracies: an
     // unordered short-circuit ("stop at the first diverged sample") would make the accuracy depend on the schedule
